@@ -100,7 +100,7 @@ func invalidations(side ref.Side, ext, frag bool) []bad {
 	return out
 }
 
-var runEntries = []string{"reader", "reader-ctlhandler", "readmessage", "readdata"}
+var runEntries = []string{"reader", "reader-ctlhandler", "readmessage", "readdata", "reader-discard", "readtext", "readbinary"}
 
 func isProtocolErr(err error) bool {
 	_, ok := err.(ws.ProtocolError)
@@ -179,6 +179,17 @@ func runOne(c *mon.C, shapes []gen.Shape, side ref.Side, ext bool, b bad, withTa
 		o := drive.Opts{Entry: entry, Side: side, Extended: ext, MaxFrameSize: maxFrame}
 		if entry == "reader-ctlhandler" {
 			o.Entry, o.Intermediate, o.CheckUTF8 = "reader", 3, true
+		}
+		if entry == "reader-discard" {
+			// every message, the open one included, is skipped with Discard
+			// after reading 0 or 1 of its bytes
+			o.Entry, o.Discard = "reader", map[int]int{}
+			for k := 0; k <= len(shapes); k++ {
+				o.Discard[k] = (k + c.I) % 2
+			}
+		}
+		if (entry == "readtext" || entry == "readbinary") && (side == ref.SideNone || ext) {
+			continue // these helpers exist for a plain client or server side only
 		}
 		want := drive.Expect(pframes, o) // Reassemble drops the unfinished message
 		for pi := 0; pi < 3; pi++ {
@@ -335,7 +346,7 @@ func main() {
 		Property: "C05",
 		Level:    "exploration",
 		Rule: "cases: every valid prefix (complete or ending inside a fragmented message) up to depth 2 (quick) / 4 (thorough) x side{server,client,zero} x extended x every offending frame of the alphabet (10 reserved opcodes; ping/pong/close with length 126 and 65536; non-final control; RSV 1..7 without extension; wrong mask bit; new data frame while fragmented; stray continuation) x tail{none, one valid message} " +
-			"x entries {Reader, Reader+ControlFrameHandler, ReadMessage, ReadData} x 3 chunk plans; plus MaxFrameSize in {L-1,1} for announced L in {1,125,126,65536,2^40} with only the header supplied; plus random prefixes of up to 30 frames. " +
+			"x entries {Reader, Reader+ControlFrameHandler, ReadMessage, ReadData, Reader skipping every message with Discard, Read{Client,Server}Text, Read{Client,Server}Binary} x 3 chunk plans; plus MaxFrameSize in {L-1,1} for announced L in {1,125,126,65536,2^40} with only the header supplied; plus random prefixes of up to 30 frames. " +
 			"Oracle: events == valid-prefix run, error is ws.ProtocolError / ErrFrameTooLarge, delivered partial data is a prefix of the open message, transport not read past the refused header. distinct = (prefix shape, offending kind, entry, plan kind, side, extended, tail).",
 		Assumptions: []string{"which of several broken rules is named is not constrained here (C03 does)", "ref.BrokenRules is used to confirm that the generated frame really is offending in the state built by the prefix"},
 		Subs:        []mon.Sub{subEnum(), subRandom()},
